@@ -227,7 +227,9 @@ func textMode(n int, outPath string) {
 			// every proper prefix of a container or string document is incomplete (numbers are not: "12" -> "1")
 			c.cuts = allCuts(len(bytes.TrimRight(data, "\n")))
 		}
-		c.trails = [][]byte{[]byte(" x"), []byte("\n{}"), []byte(" 1")}
+		// a closing bracket or brace after the document is trailing data too (a decoder that asks "is there more in this
+		// container?" takes it for the end of input); so are separators
+		c.trails = [][]byte{[]byte(" x"), []byte("\n{}"), []byte(" 1"), []byte("]"), []byte(" }"), []byte("\n]x"), []byte(","), []byte(":1")}
 		cs = append(cs, c)
 
 		// jsonl: one value per line
@@ -245,7 +247,7 @@ func textMode(n int, outPath string) {
 			}
 		}
 		c = &tcase{f: "jsonl", want: projectSrc(lines), data: lb.Bytes()}
-		c.trails = [][]byte{[]byte("\n{"), []byte(" x")}
+		c.trails = [][]byte{[]byte("\n{"), []byte(" x"), []byte("\n]"), []byte("}")}
 		switch lines[len(lines)-1].(type) {
 		case []any, map[string]any, string:
 			t := bytes.TrimRight(lb.Bytes(), "\n")
